@@ -1301,6 +1301,43 @@ def run_C16(ctx: Ctx) -> Result:
     return res
 
 
+
+def cli(script, args, timeout=120):
+    """run python/scripts/<script> the way the Makefile does (cwd python/, paths ../testdata/…)"""
+    import subprocess
+    pdir = os.path.join(core.REPO, "python")
+    p = subprocess.run(["/venv/bin/python", "-m", "scripts." + script] + list(args), cwd=pdir, capture_output=True, text=True,
+                       timeout=timeout, env={**os.environ, "PYTHONPATH": pdir})
+    return p.returncode, p.stdout, p.stderr
+
+
+def corpus_cli_events(res: Result, limit=None):
+    """acceptance corpus through scripts/generate_events.py vs the reference .ndjson files (a finite test)"""
+    import glob
+    n = 0
+    jobs = []
+    for f in sorted(glob.glob(os.path.join(core.REPO, "testdata", "good", "*.feature")))[:limit]:
+        rel = os.path.join("..", os.path.relpath(f, core.REPO))
+        jobs += [(rel, ["--no-source", "--no-pickles"], f + ".ast.ndjson"), (rel, ["--no-source", "--no-ast"], f + ".pickles.ndjson"),
+                 (rel, ["--no-ast", "--no-pickles"], f + ".source.ndjson")]
+    for f in sorted(glob.glob(os.path.join(core.REPO, "testdata", "bad", "*.feature")))[:limit]:
+        rel = os.path.join("..", os.path.relpath(f, core.REPO))
+        jobs.append((rel, ["--no-source"], f + ".errors.ndjson"))
+    for rel, flags, ref in jobs:
+        if not os.path.exists(ref):
+            continue
+        rc, out, err = cli("generate_events", flags + [rel])
+        n += 1
+        try:
+            got = [json.loads(l) for l in out.splitlines() if l.strip()]
+        except Exception:
+            got = out[:200]
+        want = [json.loads(l) for l in open(ref, encoding="utf8").read().splitlines() if l.strip()]
+        if rc != 0 or got != want:
+            res.fail("cli", {"command": "python -m scripts.generate_events " + " ".join(flags + [rel])},
+                     got if rc == 0 else err[-300:], want, "CLI output differs from the acceptance reference: " + str(first_diff(got, want)))
+    res.stats["cli_reference_comparisons"] = n
+
 MESSAGE_SHAPE = None
 
 
@@ -1448,6 +1485,28 @@ def shape_errors(env):
 def run_C17(ctx: Ctx) -> Result:
     res = streams.events_stream(ctx.rng, ctx.n(500, 5000))
     rng = ctx.rng
+    corpus_cli_events(res, limit=None if ctx.thorough else 12)
+    # the CLI's option mapping: all 8 combinations on two files vs the stream API in-process
+    from gherkin.stream.source_events import SourceEvents as _SE
+    files = [os.path.join("..", "testdata", "good", "rule.feature"), os.path.join("..", "testdata", "bad", "multiple_parser_errors.feature")]
+    for combo in itertools.product([False, True], repeat=3):
+        flags = [f for f, on in zip(["--no-source", "--no-ast", "--no-pickles"], combo) if not on]
+        rc, out, err = cli("generate_events", flags + files)
+        cwd = os.getcwd()
+        os.chdir(os.path.join(core.REPO, "python"))
+        try:
+            ev = impl.GherkinEvents(impl.GherkinEvents.Options(*combo))
+            want = [e for se in _SE(files).enum() for e in ev.enum(se)]
+        finally:
+            os.chdir(cwd)
+        try:
+            got = [json.loads(l) for l in out.splitlines() if l.strip()]
+        except Exception:
+            got = out[:200]
+        res.note({"cli_flags": flags}, True)
+        if rc != 0 or got != json.loads(json.dumps(want)):
+            res.fail("cli", {"command": "python -m scripts.generate_events " + " ".join(flags + files)}, got if rc == 0 else err[-300:],
+                     "stream API output", "generate_events.py prints something else than GherkinEvents yields for these options")
     # the source envelope carries the file's text unchanged (whatever its line endings)
     from gherkin.stream.source_events import SourceEvents
     d_ = os.path.join(ctx.scratch.dir, "src")
@@ -1571,6 +1630,13 @@ def run_C18(ctx: Ctx) -> Result:
         if got.strip("\n") != want.replace("\r\n", "\n").strip("\n") and got.replace("\r", "").strip("\n") != want.replace("\r", "").strip("\n"):
             res.fail("tokens", {"file": os.path.relpath(f, core.REPO)}, got[:300], want[:300], "token listing differs from the reference listing")
     res.stats["reference_listings"] = n
+    refs = [f for f in sorted(glob.glob(os.path.join(core.REPO, "testdata", "good", "*.feature"))) if os.path.exists(f + ".tokens")]
+    batch = refs[: (len(refs) if ctx.thorough else 10)]
+    rc, out, err = cli("generate_tokens", [os.path.join("..", os.path.relpath(f, core.REPO)) for f in batch])
+    want = "".join(open(f + ".tokens", encoding="utf8", newline="").read().replace("\r\n", "\n").rstrip("\n") + "\n" for f in batch)
+    if rc != 0 or out.replace("\r", "").strip("\n") != want.replace("\r", "").strip("\n"):
+        res.fail("cli", {"command": "python -m scripts.generate_tokens <" + str(len(batch)) + " corpus files>"},
+                 (out if rc == 0 else err)[-300:], want[-300:], "generate_tokens.py output differs from the reference token listings")
     shared_fmt = impl.Parser(impl.TokenFormatterBuilder())
     seq = sorted(glob.glob(os.path.join(core.REPO, "testdata", "bad", "*.feature")) +
                  glob.glob(os.path.join(core.REPO, "testdata", "good", "*.feature")),
